@@ -429,6 +429,8 @@ class FcpV2Transformer(Transformer):
                 source = f.read()
         except FileNotFoundError as e:
             return error(f"File not found: {pathlib.Path(e.filename).name}")
+        except (OSError, UnicodeDecodeError) as e:
+            return error(f"Cannot read file {filename.name}: {e}")
 
         try:
             self.error_logger.add_source(filename.name, source)
